@@ -50,6 +50,7 @@ def audit(tag, mol, warns, found, rep, complete_res):
     import propka.group as G
     bl = G.PROTONATOR.bond_lengths
     nh = 0
+    irregular = set()     # residues whose donors do not have their regular number of bonded heavy atoms (distorted geometry: outside the claim)
     for cname in mol.conformation_names:
         conf = mol.conformations[cname]
         heavy = [a for a in conf.atoms if a.element != "H"]
@@ -96,6 +97,17 @@ def audit(tag, mol, warns, found, rep, complete_res):
                 checks.append((("NE1",), 1))
             if rn != "PRO" and not any(a.terminal == "N+" for a in atoms):
                 checks.append((("N",), 1))
+            REG = {"N": 2, "NE": 2, "NH1": 1, "NH2": 1, "ND1": 2, "NE2": 2 if rn == "HIS" else 1, "ND2": 1, "NE1": 2}
+            def regular(names):
+                for a in atoms:
+                    if a.name in names:
+                        nbh = sum(1 for b in a.bonded_atoms if b.element != "H")
+                        if nbh != REG.get(a.name, nbh):
+                            return False
+                return True
+            if not regular(("N", "NE", "NH1", "NH2", "ND1", "NE2", "ND2", "NE1")):
+                irregular.add((key[0], key[1]))
+                continue
             for names, want in checks:
                 if prot(names) and cnt(names) != want:
                     found.append((f"incomplete-complement:{rn}:{'/'.join(names)}", f"{tag}/{cname} {rn}{key[1]}{key[0]}: {cnt(names)} hydrogens on {names}, expected {want}", rep))
@@ -107,7 +119,7 @@ def audit(tag, mol, warns, found, rep, complete_res):
                 key = (lab[-1], int(lab[3:7]))
             except ValueError:
                 continue
-            if any(k[0] == key[0] and k[1] == key[1] for k in complete_res):
+            if any(k[0] == key[0] and k[1] == key[1] for k in complete_res) and key not in irregular:
                 found.append(("failed-protonation-warning", f"{tag}: {msg.strip()} (residue is complete and has both chain neighbours)", rep))
     return nh
 
@@ -176,6 +188,8 @@ def hydrogens_in_frame(mol, inv):
     for h in c.atoms:
         if h.element == "H" and h.bonded_atoms:
             p = h.bonded_atoms[0]
+            if p.type != "atom":
+                continue          # hetero groups: terminal rotatable hydrogens are frame dependent by design (C04)
             out.setdefault((p.chain_id, p.res_num, p.icode, p.name), []).append(inv((h.x, h.y, h.z)))
     return {k: sorted(v) for k, v in out.items()}
 
